@@ -1280,6 +1280,14 @@ func ruleRoutingTableWrites(r *Run) {
 // to every return — until it reaches the values it is read from: each of them must be the plan
 // the planner returned (result of Planner.Plan, by interface or on an implementation). A plan
 // or a step built by hand carries a selection set nobody has sanitised.
+// selectsElements: library functions whose result consists of elements of their first argument,
+// unchanged (they choose, they do not build).
+var selectsElements = map[string]bool{
+	"lo.Filter": true, "lo.Reject": true, "lo.Find": true, "lo.FindOrElse": true, "lo.First": true, "lo.Last": true,
+	"lo.Uniq": true, "lo.UniqBy": true, "lo.Reverse": true, "lo.Drop": true, "lo.DropRight": true, "lo.Slice": true,
+	"lo.Subset": true, "lo.Compact": true, "slices.Clone": true, "slices.Compact": true,
+}
+
 func rulePlanHandedToResolver(r *Run) {
 	const rule = "R4a.plan"
 	var planner *types.Interface
@@ -1439,6 +1447,13 @@ func rulePlanHandedToResolver(r *Run) {
 								trace(ret.Results[res], 0, depth+1)
 							}
 						}
+						return
+					}
+					// a library selector hands back elements of the list it is given (`lo.Filter(
+					// plan.RootSteps, …)`, `lo.Find`, `lo.Reject`, a re-slice helper): what it returns
+					// comes from where its list comes from
+					if cn := strings.SplitN(calleeName(&x.Call), "[", 2)[0]; selectsElements[cn[strings.LastIndex(cn, "/")+1:]] && len(x.Call.Args) > 0 {
+						trace(x.Call.Args[0], 0, depth+1)
 						return
 					}
 					bad("the result of "+calleeName(&x.Call), x.Pos())
